@@ -141,14 +141,27 @@ pub fn scenarios(tier: &str) -> Vec<Scenario> {
     // a slot cleared by a real transaction holds an explicit zero row, which simulated SLOADs then read
     let mut cleared = committed.clone();
     cleared.extend(block(vec![s_set(0, 0, 0)]));
-    vec![Scenario {
-        name: "reads-interleaved".into(),
-        opts,
-        starts: vec![("S deployed in block 1".into(), base), ("one block committed".into(), committed), ("slot 0 set, committed, then cleared".into(), cleared)],
-        alphabet: alpha,
-        bounds: Bounds { depth: if thorough { 5 } else { 4 }, dev: vec![if thorough { 2 } else { 1 }], dev_total: 2 },
-        weight: 1.0,
-        network: "regtest".into(),
-        traces: true,
-    }]
+    vec![
+        Scenario {
+            name: "reads-interleaved".into(),
+            opts: opts.clone(),
+            starts: vec![("S deployed in block 1".into(), base)],
+            alphabet: alpha.clone(),
+            bounds: Bounds { depth: if thorough { 5 } else { 4 }, dev: vec![if thorough { 2 } else { 1 }], dev_total: 2 },
+            weight: 2.0,
+            network: "regtest".into(),
+            traces: true,
+        },
+        // the same reads on top of committed state (and of a slot that a real transaction cleared), one step shallower
+        Scenario {
+            name: "reads-interleaved-on-committed-state".into(),
+            opts,
+            starts: vec![("one block committed".into(), committed), ("slot 0 set, committed, then cleared".into(), cleared)],
+            alphabet: alpha,
+            bounds: Bounds { depth: if thorough { 4 } else { 3 }, dev: vec![if thorough { 2 } else { 1 }], dev_total: 2 },
+            weight: 1.0,
+            network: "regtest".into(),
+            traces: true,
+        },
+    ]
 }
